@@ -14,7 +14,7 @@ import (
 // kinds: 0 typed Field, 1 bare error, 2 string key, 3 non-string key, 4 nil, 5 other value.
 func vArgs(n int) (args []interface{}, kinds []int) {
 	for i := 0; i < n; i++ {
-		k := vrt.Choice(vName("kind", i), 8)
+		k := vrt.Choice(vName("kind", i), vArgKinds)
 		kinds = append(kinds, k)
 		switch k {
 		case 0:
@@ -33,9 +33,32 @@ func vArgs(n int) (args []interface{}, kinds []int) {
 			args = append(args, vSharedErr) // the very same error value wherever it occurs
 		case 7:
 			args = append(args, vListErr{"a", "b"}) // an error whose dynamic type is not comparable
+		case 8:
+			args = append(args, Skip()) // a typed field that encodes to nothing is still a typed field
+		case 9:
+			args = append(args, NamedError(vName("nilerr", i), nil)) // what zap.Error(err) gives for a nil err
 		}
 	}
 	return
+}
+
+const vArgKinds = 10
+
+// vArgSame: the caller's argument is still the value the caller put there.
+func vArgSame(a, b interface{}, kind int) bool {
+	switch kind {
+	case 0, 8, 9:
+		fa, oka := a.(Field)
+		fb, okb := b.(Field)
+		return oka && okb && fa.Key == fb.Key && fa.Type == fb.Type && fa.Integer == fb.Integer && fa.String == fb.String
+	case 7:
+		la, oka := a.(vListErr)
+		lb, okb := b.(vListErr)
+		return oka && okb && len(la) == len(lb)
+	case 4:
+		return a == nil && b == nil
+	}
+	return a == b
 }
 
 var vSharedErr = errors.New("shared")
@@ -95,7 +118,8 @@ func vFieldsSame(a, b []Field) bool {
 }
 
 func vCheckSweeten(n int) {
-	args, _ := vArgs(n)
+	args, kinds := vArgs(n)
+	orig := append([]interface{}(nil), args...)
 	core := vNewCore("c", zapcore.DebugLevel)
 	log := New(core).Sugar()
 	via := vrt.Choice("via", 6)
@@ -113,7 +137,10 @@ func vCheckSweeten(n int) {
 	case 5:
 		log.Logw(zapcore.WarnLevel, "msg", args...)
 	}
-	want, diag := vSweetenRef(args)
+	for i := range orig {
+		vrt.Assert("callers-argument-list-untouched", vArgSame(args[i], orig[i], kinds[i]))
+	}
+	want, diag := vSweetenRef(orig)
 	var main []vWrite
 	var multi, odd, nonstr []vWrite
 	for _, w := range core.st.writes {
@@ -133,6 +160,12 @@ func vCheckSweeten(n int) {
 	vrt.Assert("main-entry-logged-once", len(main) == 1)
 	if len(main) == 1 {
 		vrt.Assert("well-formed-arguments-logged-in-order", vFieldsSame(main[0].fields, want))
+		// typed fields pass through as they are, including those that encode to nothing
+		same := len(main[0].fields) == len(want)
+		for i := 0; same && i < len(want); i++ {
+			same = main[0].fields[i].Type == want[i].Type && main[0].fields[i].Key == want[i].Key
+		}
+		vrt.Assert("typed-fields-pass-through-unchanged", same)
 	}
 	// diagnostics never vanish and identify the offending items
 	vrt.Assert("one-diagnostic-per-extra-error", len(multi) == len(diag.extraErrors))
@@ -169,7 +202,7 @@ func vCheckSweeten(n int) {
 	vrt.Cover("done")
 }
 
-//verif: prop=C14 bounds="argument lists of length 0..3 over 8 element kinds (typed field, bare error, the same error value again, an error of uncomparable dynamic type, string key, non-string key, nil, other value; int64 payloads symbolic) through Infow/Debugw/Errorw/Logw/With/WithLazy"
+//verif: prop=C14 bounds="argument lists of length 0..3 over 10 element kinds (typed field, a typed no-op field (Skip, and Error of a nil error), bare error, the same error value again, an error of uncomparable dynamic type, string key, non-string key, nil, other value; int64 payloads symbolic) through Infow/Debugw/Errorw/Logw/With/WithLazy; the caller's argument slice is unchanged afterwards"
 func VC14Sweeten3() { vCheckSweeten(vrt.IntRange("n", 0, 3)) }
 
 //verif: prop=C14 tier=thorough bounds="argument lists of length 4 and 5"
